@@ -28,7 +28,7 @@ ASSUMPTIONS = [
 BOUNDS = {"quick": {"program_size": 3}, "thorough": {"program_size": 4}}
 CHUNK = 20
 MENU = frozenset({"assign", "declare", "declare-use", "declare-tagged", "undef-read", "late-read", "if", "if-else",
-                  "for", "try-except", "return", "raise"})
+                  "for", "try-except", "try-nameerror", "return", "raise"})
 SPECIAL = frozenset({"declare", "declare-use", "declare-tagged", "undef-read", "late-read"})
 PRELUDE = "from ptera import tag\n"
 
@@ -75,7 +75,7 @@ def reference(prog, info, supplied, x):
     return obs, trace
 
 
-ROUTES = ["tooled+overlay", "partial+overlay", "oprobe", "probe-undef", "generic"]
+ROUTES = ["tooled+overlay", "partial+overlay", "oprobe", "probe-undef", "generic", "probe-ext", "ctx-probe", "stacked"]
 
 
 def instrumented(prog, info, route, supplied, x, part):
@@ -107,6 +107,25 @@ def instrumented(prog, info, route, supplied, x, part):
             p.subscribe(lambda ev: events.append({k: P.freeze(v) for k, v in ev.items()}))
             p.__enter__()
             active.append(p)
+        if route == "probe-ext":
+            # a helper global of the function is instrumented, nothing else
+            p = probing("f > E", env=env)
+            p.subscribe(lambda ev: events.append({k: P.freeze(v) for k, v in ev.items()}))
+            p.__enter__()
+            active.append(p)
+        if route == "ctx-probe":
+            # every declared variable as a plain *context* capture of the other bound names
+            dv = [n for n, _ in declared_vars(info)]
+            others = [n for n in info["params"] + info["locals"] if n not in dv]
+            for o in others:
+                p = probing(f"f({', '.join(dv)}) > {o}" if dv else f"f > {o}", env=env)
+                p.subscribe(lambda ev: events.append({k: P.freeze(v) for k, v in ev.items()}))
+                p.__enter__()
+                active.append(p)
+        if route == "stacked":
+            p = probing("f > x", env=env)
+            p.__enter__()
+            active.append(p)
         if route == "generic":
             p = probing("f > $v", env=env)
             p.subscribe(lambda ev: events.append({k: P.freeze(v) for k, v in ev.items()}))
@@ -126,6 +145,15 @@ def instrumented(prog, info, route, supplied, x, part):
                 ol = Overlay.tweaking({sel: supply_value(name, x, "const")})
                 ol.__enter__()
                 active.append(ol)
+                if route == "stacked":
+                    # a later-activated handler that declines must not erase the supplied value
+                    p = probing(f"f > {name}", env=env, overridable=True)
+                    p.subscribe(lambda ev: None)
+                    p.__enter__()
+                    active.append(p)
+                    ol2 = Overlay.rewriting({sel: (lambda ev: ABSENT)})
+                    ol2.__enter__()
+                    active.append(ol2)
             else:
                 val = supply_value(name, x, "odd")
                 ol = Overlay.rewriting({sel: (lambda ev, val=val: ABSENT if val is None else val)})
@@ -237,7 +265,9 @@ def configs(prog, info, tier):
         if route == "probe-undef" and not has_undef:
             continue
         for sup in subsets:
-            if route in ("probe-undef", "generic") and sup:
+            if route in ("probe-undef", "generic", "probe-ext", "ctx-probe") and sup:
+                continue
+            if route == "stacked" and (not sup or any(m != "const" for m in sup.values())):
                 continue
             out.append((route, sup))
     return out
